@@ -30,7 +30,7 @@ NUMERIC = (f"""(define (domain n1)
 {REQ}
 (:types t1 - object)
 (:predicates (on ?a - t1))
-(:functions (f) (g ?a - t1) (h ?a - t1 ?b - t1))
+(:functions (f) (g ?a - t1) (h ?a - t1 ?b - t1) (t3 ?a - t1 ?b - t1 ?c - t1))
 (:action inc :parameters (?x - t1)
   :precondition (and (< (g ?x) 2))
   :effect (and (increase (g ?x) 1) (decrease (f) 0.5) (on ?x)))
@@ -45,7 +45,7 @@ NUMERIC = (f"""(define (domain n1)
   :effect (and (assign (g ?x) (g ?y)) (when (on ?x) (assign (g ?y) (g ?x))))))
 """, """(define (problem n1p) (:domain n1)
 (:objects a b - t1)
-(:init (= (f) -2) (= (g a) 0) (= (g b) 1.5) (= (h a a) 0) (= (h a b) 0.00002) (= (h b a) 0.25) (= (h b b) 0))
+(:init (= (f) -2) (= (g a) 0) (= (g b) 1.5) (= (h a a) 0) (= (h a b) 0.00002) (= (h b a) 0.25) (= (h b b) 0) (= (t3 a b a) 2) (= (t3 b a a) 3))
 (:goal (and (> (g a) 1))))
 """)
 
